@@ -1,5 +1,6 @@
 import PybropsModel.J
 import PybropsModel.Model.Recomb
+import PybropsModel.Model.Mating
 open Lean
 
 namespace Drv.C02
@@ -9,18 +10,8 @@ def ofExcept {α} (f : α → Json) : Except String α → Json
   | .ok a => J.obj [("value", f a)]
   | .error e => J.obj [("error", J.ofStr e)]
 
-/-- phases observed in a gamete: cell j must be one of the two parental cells at j, which must
-    differ; `none` when provenance cannot be read off -/
-def observeRow (h0 h1 g : List Int) : Option (List Bool) :=
-  if h0.length != g.length || h1.length != g.length then none else
-  (List.zip g (List.zip h0 h1)).mapM (fun c =>
-    if c.2.1 == c.2.2 then none
-    else if c.1 == c.2.1 then some false
-    else if c.1 == c.2.2 then some true
-    else none)
-
 def observe (geno : List (List (List Int))) (sel : List Nat) (gam : List (List Int)) :
-    Option (List (List Bool)) :=
+    Option (List (List (Option Bool))) :=
   match geno with
   | g0 :: g1 :: _ =>
     if sel.length != gam.length then none else
@@ -29,6 +20,27 @@ def observe (geno : List (List (List Int))) (sel : List Nat) (gam : List (List I
       | some h0, some h1 => observeRow h0 h1 sg.2
       | _, _ => none)
   | _ => none
+
+/-- partly observed rows against their draws -/
+def specRowsObs (obs : List (List (Option Bool))) (rnd : List (List Rat)) (xo : List Rat) : Bool × String :=
+  if obs.length != rnd.length then (false, "row count") else
+  let bad := (List.zip obs rnd).zipIdx.filter (fun lr => !specRowObs lr.1.1 lr.1.2 xo)
+  match bad with
+  | [] => (true, "copies follow the draws")
+  | b :: _ =>
+    if b.1.1.length != xo.length || b.1.2.length != xo.length then
+      (false, s!"gamete {b.2}: row length differs from len(xoprob)")
+    else
+      -- first marker at which the set of possible copies becomes empty
+      let rec go (s : Bool × Bool) (j : Nat) : List (Option Bool) → List Rat → List Rat → String
+        | o :: os, r :: rs, x :: xs =>
+          let s' := nfaSee (nfaMove s r x) o
+          if !(s'.1 || s'.2) then
+            s!"gamete {b.2} marker {j}: draw {r} vs xoprob {x}: seen on copy {match o with | some true => 1 | _ => 0} " ++
+            s!"but the draws up to here put it on copy {if (nfaMove s r x).1 then 0 else 1}"
+          else go s' (j + 1) os rs xs
+        | _, _, _ => s!"gamete {b.2}"
+      (false, go (true, false) 0 b.1.1 b.1.2 xo)
 
 def specRows (labs : List (List Bool)) (rnd : List (List Rat)) (xo : List Rat) : Bool × String :=
   if labs.length != rnd.length then (false, "row count") else
@@ -44,51 +56,133 @@ def specRows (labs : List (List Bool)) (rnd : List (List Rat)) (xo : List Rat) :
 
 def genoOf (j : Json) (k : String) : J.R (List (List (List Int))) := J.field j k (J.list (J.mat J.int))
 
-/-- model of mat_meiosis / mat_dh / mat_mate -/
+/-- draws: rationals ("n/d" strings or integers), optionally all over one common denominator `dden` -/
+def scaleBy (den : Nat) (m : List (List Rat)) : List (List Rat) :=
+  if den == 1 then m else m.map (fun r => r.map (fun q => q / (den : Rat)))
+
+def drawMats (j : Json) (k : String) : J.R (List (List (List Rat))) := do
+  let den ← J.fieldD j "dden" J.nat 1
+  if den == 0 then J.fail "dden = 0" else
+  let raw ← J.field j k (J.list (J.mat J.rat))
+  pure (raw.map (scaleBy den))
+
+def drawMat (j : Json) (k : String) : J.R (List (List Rat)) := do
+  let den ← J.fieldD j "dden" J.nat 1
+  if den == 0 then J.fail "dden = 0" else
+  let raw ← J.field j k (J.mat J.rat)
+  pure (scaleBy den raw)
+
+/-- `sel` as numpy reads it: a negative entry counts from the end of the taxa axis -/
+def selOf (j : Json) (k : String) (geno : List (List (List Int))) : J.R (List Nat) := do
+  let raw ← J.field j k (J.list J.int)
+  let n := (geno.headD []).length
+  pure (raw.map (Mating.wrapIdx n))
+
+/-- model of mat_meiosis / mat_dh / mat_mate (`impl` = "mat") and of dense_meiosis / dense_dh / dense_cross
+    (`impl` = "dense") -/
 def opMeiosis : J.Op := fun j => do
   let fn ← J.field j "fn" J.str
+  let impl ← J.fieldD j "impl" J.str "mat"
+  let dense := impl == "dense"
   let geno ← genoOf j "geno"
-  let sel ← J.field j "sel" (J.list J.nat)
+  let sel ← selOf j "sel" geno
   let xo ← J.field j "xoprob" (J.list J.rat)
-  let rnd ← J.field j "rnd" (J.list (J.mat J.rat))
+  let rnd ← drawMats j "rnd"
   let r0 := rnd.getD 0 []
   match fn with
   | "meiosis" =>
-    pure <| J.obj [("out", ofExcept (J.ofMat J.ofInt) (matMeiosis geno sel xo r0)),
+    pure <| J.obj [("out", ofExcept (J.ofMat J.ofInt)
+                      (if dense then denseMeiosis geno sel xo r0 else matMeiosis geno sel xo r0)),
                    ("ncalls", J.ofNat 1),
                    ("phases", J.ofMat J.ofBool (r0.map (fun r => phases (xoMask r xo))))]
   | "dh" =>
-    pure <| J.obj [("out", ofExcept (J.ofList (J.ofMat J.ofInt)) (matDH geno sel xo r0)),
+    pure <| J.obj [("out", ofExcept (J.ofList (J.ofMat J.ofInt))
+                      (if dense then denseDH geno sel xo r0 else matDH geno sel xo r0)),
                    ("ncalls", J.ofNat 1),
                    ("phases", J.ofMat J.ofBool (r0.map (fun r => phases (xoMask r xo))))]
   | "mate" =>
     let mgeno ← genoOf j "mgeno"
-    let msel ← J.field j "msel" (J.list J.nat)
+    let msel ← selOf j "msel" mgeno
     let r1 := rnd.getD 1 []
-    pure <| J.obj [("out", ofExcept (J.ofList (J.ofMat J.ofInt)) (matMate geno mgeno sel msel xo r0 r1)),
+    pure <| J.obj [("out", ofExcept (J.ofList (J.ofMat J.ofInt))
+                      (if dense then denseCross geno mgeno sel msel xo r0 r1
+                       else matMate geno mgeno sel msel xo r0 r1)),
                    ("ncalls", J.ofNat 2),
                    ("phases", J.ofMat J.ofBool ((r0 ++ r1).map (fun r => phases (xoMask r xo))))]
   | _ => J.fail s!"unknown fn {fn}"
 
-/-- Spec oracle on the implementation's gametes (provenance read from unique allele codes) -/
+/-- Spec oracle on the implementation's gametes: provenance read from the allele codes where the parent is
+    heterozygous; homozygous markers only have to carry the parent's allele -/
 def opSpecMeiosis : J.Op := fun j => do
   let geno ← genoOf j "geno"
-  let sel ← J.field j "sel" (J.list J.nat)
+  let sel ← selOf j "sel" geno
   let xo ← J.field j "xoprob" (J.list J.rat)
-  let rnd ← J.field j "rnd" (J.mat J.rat)
+  let rnd ← drawMat j "rnd"
   let gam ← J.field j "gamete" (J.mat J.int)
   match observe geno sel gam with
-  | none => pure <| J.obj [("ok", J.ofBool false), ("detail", J.ofStr "a gamete cell is neither parental copy"),
-                           ("labels", Json.null)]
-  | some labs =>
-    let (ok, msg) := specRows labs rnd xo
-    pure <| J.obj [("ok", J.ofBool ok), ("detail", J.ofStr msg), ("labels", J.ofMat J.ofBool labs)]
+  | none => pure <| J.obj [("ok", J.ofBool false), ("detail", J.ofStr "a gamete cell is neither parental allele"),
+                           ("seen", Json.null)]
+  | some obs =>
+    let (ok, msg) := specRowsObs obs rnd xo
+    pure <| J.obj [("ok", J.ofBool ok), ("detail", J.ofStr msg),
+                   ("nseen", J.ofNat ((obs.map (fun o => (o.filter Option.isSome).length)).foldl (· + ·) 0))]
+
+def protoOf (s : String) : J.R Mating.Proto :=
+  match s with
+  | "SelfCross" => pure .self
+  | "TwoWayCross" => pure .twoWay
+  | "TwoWayDHCross" => pure .twoWayDH
+  | "ThreeWayCross" => pure .threeWay
+  | "ThreeWayDHCross" => pure .threeWayDH
+  | "FourWayCross" => pure .fourWay
+  | "FourWayDHCross" => pure .fourWayDH
+  | _ => J.fail s!"unknown protocol {s}"
+
+def cntOf (j : Json) : J.R Mating.Cnt :=
+  match j with
+  | .arr _ => Mating.Cnt.arr <$> J.list J.nat j
+  | _ => Mating.Cnt.scalar <$> J.nat j
+
+def errTag : Meiosis.Err → String
+  | .index => "index" | .value => "value" | .shape => "shape" | .oracle => "oracle"
+
+/-- the whole of `<Protocol>.mate()` (C01's model `Mating.mateFull`, selfing generations and the final
+    `group_taxa` included) on the recorded draws of all its meioses: every cell of every progeny -/
+def opProtoFull : J.Op := fun j => do
+  let P ← protoOf (← J.field j "proto" J.str)
+  let geno ← genoOf j "geno"
+  let pop : Meiosis.Pop Int ← match geno with
+    | [p0, p1] => if p0.length = p1.length then pure (List.zip p0 p1) else J.fail "phases differ in taxa count"
+    | _ => J.fail "genotype array must have exactly two phases"
+  let xc ← J.field j "xconfig" (J.mat J.int)
+  let nm ← J.field j "nmating" cntOf
+  let np ← J.field j "nprogeny" cntOf
+  let nself ← J.field j "nself" J.nat
+  let xo ← J.field j "xoprob" (J.list J.rat)
+  let pc ← J.fieldD j "pc" J.nat 0
+  let fc ← J.fieldD j "fc" J.nat 0
+  let draws ← drawMats j "draws"
+  match Mating.mate P pop (Mating.wrapConfig pop.length xc) nm np nself xo pc fc draws with
+  | .error e => pure <| J.obj [("error", J.ofStr (errTag e))]
+  | .ok o =>
+    let inds := o.rows.map Mating.Row.ind
+    pure <| J.obj [("mat", J.ofList (J.ofMat J.ofInt) [inds.map Prod.fst, inds.map Prod.snd]),
+                   ("pc", J.ofNat o.pc), ("fc", J.ofNat o.fc)]
+
+/-- every doubled-haploid matrix `from_gmod` generates, from the recorded draws -/
+def opEmbvFull : J.Op := fun j => do
+  let geno ← genoOf j "geno"
+  let xo ← J.field j "xoprob" (J.list J.rat)
+  let np ← J.field j "nprogeny" (J.list J.nat)
+  let nr ← J.field j "nrep" (J.list J.nat)
+  let draws ← drawMats j "draws"
+  pure <| ofExcept (J.ofList (J.ofList (J.ofMat J.ofInt))) (embvDH geno xo np nr draws)
 
 /-- Spec oracle on observed phase sequences (protocol level) + the model's phases for the same draws -/
 def opSpecLabels : J.Op := fun j => do
   let labs ← J.field j "labels" (J.mat J.bool)
   let xo ← J.field j "xoprob" (J.list J.rat)
-  let rnd ← J.field j "rnd" (J.mat J.rat)
+  let rnd ← drawMat j "rnd"
   let (ok, msg) := specRows labs rnd xo
   pure <| J.obj [("ok", J.ofBool ok), ("detail", J.ofStr msg),
                  ("phases", J.ofMat J.ofBool (rnd.map (fun r => phases (xoMask r xo))))]
@@ -112,8 +206,19 @@ def opProbs : J.Op := fun j => do
               == phaseProb xo i * (1 - pairProb xo i k))))
       && idx.all (fun k => E xo (fun b => ind ((phases b).getD k false)) == phaseProb xo k)
     else true
+  -- two generations (a gamete of a plant whose own copies are independent gametes of one grandparent):
+  -- closed form `pairProb2` (theorem two_generation_recombination_law), enumerated for very short vectors
+  let pair2 := idx.map (fun i => idx.map (fun k => if i < k then pairProb2 xo i k else 0))
+  let enum2Ok : Bool :=
+    if m ≤ 3 then
+      idx.all (fun i => idx.all (fun k => !(i < k) ||
+        E (xo ++ (xo ++ xo)) (fun b =>
+            ind (lab2 (b.take m) ((b.drop m).take m) ((b.drop m).drop m) i !=
+                 lab2 (b.take m) ((b.drop m).take m) ((b.drop m).drop m) k)) == pairProb2 xo i k))
+    else true
   pure <| J.obj [("pair", J.ofMat J.ofRat pair), ("phase", J.ofList J.ofRat phase),
-                 ("both", J.ofMat J.ofRat both), ("enum_ok", J.ofBool enumOk)]
+                 ("both", J.ofMat J.ofRat both), ("enum_ok", J.ofBool (enumOk && enum2Ok)),
+                 ("pair2", J.ofMat J.ofRat pair2)]
 
 /-- model of gdist1g: distances to the previous marker, null = +inf (chromosome start) -/
 def opGdist : J.Op := fun j => do
@@ -137,6 +242,6 @@ def opEmbvCalls : J.Op := fun j => do
 def ops : List (String × J.Op) :=
   [("c02.meiosis", opMeiosis), ("c02.spec_meiosis", opSpecMeiosis), ("c02.spec_labels", opSpecLabels),
    ("c02.probs", opProbs), ("c02.gdist", opGdist), ("c02.proto_calls", opProtoCalls),
-   ("c02.embv_calls", opEmbvCalls)]
+   ("c02.embv_calls", opEmbvCalls), ("c02.proto_full", opProtoFull), ("c02.embv_full", opEmbvFull)]
 
 end Drv.C02
